@@ -332,6 +332,12 @@ def check(run: Run) -> None:
             run.finding("C15.n", f"{fd_.name}:error-message-edited:{op}", f"{fd_.qual} edits the captured error message ({op}): the message on the error output differs from the "
                         "exception's text (for example clipped at a length bound)", loc=fa_.loc(x))
 
+    with run.obligation("C15.o", "K7", "a captured failure of one node of a keyed child does not disturb the other nodes of that child: after the handler recorded the error the owner "
+                        "still reaches the end of the iteration, where it pulls the child's next wake-up into its schedule queue (the only path by which a timer armed in the "
+                        "failing cycle by ANOTHER node of the same child reaches the owner) (shared with C09.d)"):
+        from . import c09
+        R.share(run, "C15.o", c09, ["C09.d"])
+
 
 VARIANTS = [
     {"id": "n-seed-C15-7-message-clipped", "expect": "C15.n", "edits": [{"file": "src/hgraph/runtime/node_error.cpp", "find": "        fields.error_msg   = std::move(error_msg);", "replace": "        fields.error_msg   = std::move(error_msg);\n        if (fields.error_msg.size() > 256) { fields.error_msg.resize(256); fields.error_msg += \"...\"; }"}]},
